@@ -314,6 +314,22 @@ def gen_stmt_exprs():
     return out
 
 
+def gen_same_name_operands():
+    """Two spellings that name one register in two ways (plain / .new, single explicit / alias) or similar registers, in one
+    behaviour: each keeps its own declarations."""
+    out = []
+    d = [("int32_t", "a", "input"), ("int64_t", "r", "local"), ("int64_t", "q", "local")]
+    pairs = [("PuV", "PuN"), ("PvV", "PvN"), ("RsV", "RsN"), ("RtV", "RtN"), ("P0", "P0_NEW"), ("P3", "P3_NEW"), ("R0", "R0_NEW"), ("R31", "R31_NEW"), ("HEX_REG_ALIAS_LR", "HEX_REG_ALIAS_LR_NEW"),
+             ("HEX_REG_ALIAS_USR", "HEX_REG_ALIAS_USR_NEW"), ("HEX_REG_ALIAS_PC", "HEX_REG_ALIAS_PC_NEW"), ("R1", "R11"), ("R1:0", "R1"), ("R3", "C3"), ("P1", "R1"), ("NsN", "RtV"), ("siV", "SiV"), ("RsV", "uiV")]  # (no immediate letter that is also the name of a local: IL variables share one name space)
+    for x, y in pairs:
+        for u, v in ((x, y), (y, x)):
+            out.append(P(d, "r = %s; q = %s;" % (u, v), ("same-name", u, v, "seq")))
+            out.append(P(d, "r = %s + %s;" % (u, v), ("same-name", u, v, "sum")))
+            out.append(P(d, "if (%s) { r = %s; } else { q = %s; }" % (u, v, u), ("same-name", u, v, "if")))
+            out.append(P(d, "RdV = %s ? %s : a;" % (u, v), ("same-name", u, v, "cond")))
+    return out
+
+
 def gen_rw_operands():
     """Read-write / write-only register operands in every read/write pattern."""
     out = []
@@ -334,7 +350,7 @@ def static_space(tier):
         specs += c02.space("quick")
         specs += gen_assignments(T8, T8)
         specs += gen_bool_mix(["int8_t", "uint8_t", "uint16_t", "int32_t", "uint32_t", "int64_t", "uint64_t"])
-    specs += gen_reuse() + gen_folding() + gen_control() + gen_rw_operands() + gen_reg_updates() + gen_stmt_exprs()
+    specs += gen_reuse() + gen_folding() + gen_control() + gen_rw_operands() + gen_reg_updates() + gen_stmt_exprs() + gen_same_name_operands()
     specs += gen_bool_positions(BOOL_EXPRS[:4] if tier == "quick" else BOOL_EXPRS)
     specs += gen_cond_positions()
     specs += gen_calls(CALL_ARGS[:8] if tier == "quick" else CALL_ARGS)
